@@ -12,6 +12,16 @@ CLAIMED = {
    text="The algebra (count, flatten order and paths, idempotence, Display, one diagnostic per leaf) is checked by TLC as invariants over every value the builder machine reaches within bounds; every (state, operation) transition TLC explored is executed on real darling::Error values and all public observations compared; random real histories beyond the bounds are accepted as behaviours of the spec with all laws as invariants."),
  "C05": dict(engine="Accumulator", design_ref="4.2, 5/C05", technique="TLA+ spec (Accumulator.tla) model-checked with TLC over all bounded histories; each history replayed on a real Accumulator; recorded real histories trace-validated (Trace_Accumulator.tla)",
    text="All histories over the twelve operations up to the bound are enumerated by TLC with the property's clauses (Ok iff nothing recorded, recording order, handle/checkpoint results, drop bomb with lost-count, no second panic while unwinding) as invariants over the history; each history is then executed call by call on a real accumulator and every result compared; random real histories beyond the bound are accepted as behaviours of the spec."),
+ "C01": dict(engine="Receiver", design_ref="4.6, 5/C01", technique="TLA+ spec of the generated parser (Receiver.tla) model-checked with TLC against the declarative field mapping (ReceiverProps.tla: Expected); every behaviour replayed on real derived receivers compiled from the corpus",
+   text="For every corpus declaration and every input of the bounded grammar TLC checks that the step machine transcribed from the code generator yields, on mistake-free inputs, exactly the declaratively defined value (effective names, conversion then with then map/and_then, multiple in order, default chain, flatten hand-off, allow_unknown); every such behaviour is then executed by the real derived parser built from /repo and the value compared term by term with the declarative expectation."),
+ "C02": dict(engine="Receiver", design_ref="4.6, 5/C02", technique="TLA+ spec (Receiver.tla) model-checked with TLC against the declarative bag of mistakes (ReceiverProps.tla: Mistakes); every behaviour replayed on real derived receivers",
+   text="TLC checks on every (declaration, input) within bounds that the machine fails iff the declaratively defined bag of mistakes is non-empty and that its flattened leaves are in one-to-one correspondence with it (class, offending name, location path), at every nesting depth incl. nested receivers, enum variants, map values and flatten hand-off; each behaviour is executed by the real parser and its flattened leaves compared with the same bag."),
+ "C03": dict(engine="Receiver+ErrorAlgebra", design_ref="4.1, 4.6, 5/C03", technique="TLA+ specs (ErrorOps/ErrorAlgebra, Receiver) model-checked with TLC: span monotonicity and inheritance laws, and span-in-region for every mistake; replayed on real code with line/column spans",
+   text="TLC checks that with_span/at/flatten never replace a span and that flattening gives a leaf its own or its bundle's span (ErrorAlgebra), and that every leaf the receiver machine produces points into the region the declarative side assigns to its mistake (the offending item; exactly the enclosing item for an absence; none only at the root); the real parser's leaves are compared by line/column range with those regions."),
+ "C08": dict(engine="Receiver", design_ref="4.6, 5/C08", technique="TLA+ spec (Receiver.tla: attribute walk, forwarding) model-checked with TLC: merge law and forwarded set as invariants over all partitions; replayed on the five element-level derives",
+   text="For element-level roots TLC enumerates every split of every item sequence into attributes interleaved with empty, bare, name-value, non-meta and unrelated attributes and checks that the result equals that of the single merged list and that the forwarded indices are exactly the selected ones in order; each behaviour is executed by the real derived parser (value, errors, forwarded attributes token-for-token)."),
+ "C09": dict(engine="Receiver", design_ref="4.6, 5/C09", technique="TLA+ spec (Receiver.tla: enum receivers) model-checked with TLC against the declarative variant selection (ReceiverProps.tla); replayed on real derived enums",
+   text="TLC checks for every corpus enum (unit/newtype/struct variants, rename, rename_all, skip, word, from_word, from_none) and every input form (word, string, other literals, list of 0..2 items) that the machine selects exactly the declaratively defined variant or reports the declaratively defined mistake; each behaviour is executed by the real derived enum."),
 }
 
 NOT_YET = "check not built yet (planned, see DESIGN.md section 5)"
